@@ -40,6 +40,8 @@ val div : nat -> nat -> nat
 
 val modulo : nat -> nat -> nat
 
+val bool_dec : bool -> bool -> bool
+
 val eqb0 : bool -> bool -> bool
 
 module Nat :
@@ -267,6 +269,8 @@ val one : ascii
 
 val shift : bool -> ascii -> ascii
 
+val ascii_dec : ascii -> ascii -> bool
+
 val eqb1 : ascii -> ascii -> bool
 
 val ascii_of_pos : positive -> ascii
@@ -341,6 +345,10 @@ type string =
 val eqb2 : string -> string -> bool
 
 val append : string -> string -> string
+
+val length0 : string -> nat
+
+val prefix : string -> string -> bool
 
 type bits = bool list
 
@@ -1962,8 +1970,14 @@ val all_healthy : nat -> state0 -> bool
 val recover :
   nat -> nat -> state0 -> nat -> nat -> ((state0 * nat) * nat) option
 
+val probe1 : nat -> state0 -> nat -> nat list -> ((state0 * sx) * nat) option
+
+val until_fail :
+  nat -> nat -> state0 -> nat -> nat -> nat list -> (state0 * nat) option
+
 val auth_acts :
-  nat -> sx list -> state0 -> nat -> nat -> sx list -> (sx list * nat) option
+  nat -> sx list -> state0 -> nat -> nat -> sx list -> nat list -> (sx
+  list * nat) option
 
 val run_auth : sx -> sx
 
@@ -2106,6 +2120,28 @@ val xenc : nat -> xty -> value -> bld -> bld res
 
 val xdec : nat -> xty -> slc -> (value * slc) res
 
+val is_char : ascii -> ascii -> bool
+
+val split_sep : string -> (ascii * string) option
+
+val digit0 : n -> ascii -> n option
+
+val digits : n -> string -> n -> n option
+
+val parse_tag : string -> (nat * n) option
+
+val has_prefix : string -> string -> bool
+
+val contains : string -> string -> bool
+
+val drop : nat -> string -> string
+
+val trim_left : string -> string
+
+type field_tag = { ft_ref : bool; ft_maybe : bool; ft_maybe_ref : bool }
+
+val parse_field_tag : string -> field_tag option
+
 val small1 : n -> nat option
 
 val omap : ('a1 -> 'a2) -> 'a1 option -> 'a2 option
@@ -2136,7 +2172,11 @@ val cell_eqb_sx : ctree -> ctree -> bool
 
 val run_rt_base : sx -> sx
 
-val run_dec0 : sx -> sx
+val string_of_bytes : n list -> string
+
+val run_tag : n list -> sx
+
+val run_dec_cell : sx -> sx
 
 val run_cur : sx -> sx
 
@@ -2147,6 +2187,8 @@ val run_xrt : sx -> sx
 val run_rt : sx -> sx
 
 val run_stack : sx -> sx
+
+val run_dec0 : sx -> sx
 
 type schema =
 | SUint of nat
@@ -2324,6 +2366,68 @@ val s_WcSplitMergeTimings : schema
 val s_PrecompiledSmc : schema
 
 val s_CatchainConfig : schema
+
+val s_ConfigParamAddr : schema
+
+val s_BurningConfig : schema
+
+val s_ConfigParam5 : schema
+
+val s_ConfigParam6 : schema
+
+val s_ConfigParam7 : schema
+
+val s_ConfigParam8 : schema
+
+val s_ConfigProposalSetup : schema
+
+val s_ConfigVotingSetup : schema
+
+val s_ConfigParam11 : schema
+
+val s_ConfigProposal : schema
+
+val s_ConfigParam13 : schema
+
+val s_ConfigParam14 : schema
+
+val s_ConfigParam15 : schema
+
+val s_ConfigParam16 : schema
+
+val s_ConfigParam17 : schema
+
+val s_ConfigParamBlockLimits : schema
+
+val s_ConfigParamFwdPrices : schema
+
+val s_ConfigParam28 : schema
+
+val s_cc7 : schema list
+
+val s_ConsensusConfig : schema
+
+val s_ConfigParam29 : schema
+
+val s_MisbehaviourPunishmentConfig : schema
+
+val s_ConfigParam40 : schema
+
+val s_SizeLimitsConfig : schema
+
+val s_ConfigParam43 : schema
+
+val s_JettonBridgePrices : schema
+
+val s_OracleBridgeParams : schema
+
+val s_PrecompiledContractsConfig : schema
+
+val s_SuspendedAddressList : schema
+
+val s_AccountDispatchQueue : schema
+
+val s_BlockInfoPart : schema
 
 val ext_in_value : z -> bits -> n -> value option -> ctree -> value
 
@@ -3214,7 +3318,7 @@ val ch_under : n
 
 val str_eqb : str -> str -> bool
 
-val has_prefix : str -> str -> str option
+val has_prefix0 : str -> str -> str option
 
 val has_prefix_b : str -> str -> bool
 
@@ -3222,7 +3326,7 @@ val has_suffix_b : str -> str -> bool
 
 val go_slice : nat -> nat -> str -> str res
 
-val trim_left : (n -> bool) -> str -> str
+val trim_left0 : (n -> bool) -> str -> str
 
 val frev : str -> str
 
@@ -4242,7 +4346,7 @@ val run_unmarshal_any : sx -> sx
 
 val run_unmarshal_canon : sx -> sx
 
-val string_of_bytes : bytes1 -> string
+val string_of_bytes0 : bytes1 -> string
 
 val bytes_of_string0 : string -> bytes1
 
